@@ -319,9 +319,14 @@ fn sem(def: &Def, el: &El) -> Sem {
                 "{}{}",
                 if laborde { "laborde" } else if def.has("variant") { "B" } else { "A" },
                 {
-                    let a = def.or("alpha", 0.0).rem_euclid(360.0);
-                    if a == 90.0 {
+                    let raw = def.or("alpha", 0.0);
+                    let a = raw.rem_euclid(360.0);
+                    if raw == -90.0 {
+                        "-alpha-90"
+                    } else if a == 90.0 {
                         "-alpha90"
+                    } else if a == 270.0 {
+                        "-alpha270"
                     } else if a > 90.0 && a < 270.0 {
                         "-alpha-obtuse"
                     } else {
@@ -689,12 +694,29 @@ fn claims(def: &Def, s: &Sem, el: &El, pts: &[[F; 2]]) -> Vec<Claim> {
     }
     if origin_at_centre(def, s) {
         let extra = if s.kind == Kind::Lcc { el.a * s.k_0 / lcc_cone_constant(def, el).abs().max(1e-3) } else { 0.0 };
-        out.push(Claim::Maps { lon: s.lon_c, lat: s.lat_c.unwrap(), x: s.x_0, y: s.y_0, tol: pos_tol(extra), tag: "false-origin-at-centre" });
+        // omerc: sqrt(D^2 - 1) is formed by cancellation when the centre is close to the equator
+        // (worst observed 1.0e-6 m at latc = 0.024 deg, alpha = 90): 5 micrometres instead of 1
+        let slack = if s.kind == Kind::Omerc { 5.0 } else { 1.0 };
+        out.push(Claim::Maps { lon: s.lon_c, lat: s.lat_c.unwrap(), x: s.x_0, y: s.y_0, tol: slack * pos_tol(extra), tag: "false-origin-at-centre" });
     }
     out
 }
 
 // ---- the oracle -------------------------------------------------------------------
+
+thread_local! {
+    /// error / tolerance of the comparison that failed last (attribution is only attempted
+    /// for gross failures: marginal ones do not reproduce reliably on a reduced definition)
+    static LAST_RATIO: std::cell::Cell<f64> = const { std::cell::Cell::new(0.0) };
+}
+fn note(e: f64, tol: f64) -> bool {
+    let ok = e <= tol;
+    if !ok {
+        LAST_RATIO.with(|r| r.set(if tol > 0.0 { e / tol } else { f64::INFINITY }));
+    }
+    ok
+}
+const GROSS: f64 = 100.0;
 
 fn check(case: &Case, rec: &mut Rec) -> CaseResult {
     match run_def(&case.def, case, rec, true) {
@@ -708,7 +730,7 @@ fn check(case: &Case, rec: &mut Rec) -> CaseResult {
 /// optional group at a time. The key names the first reduced definition that still fails.
 fn attribute(case: &Case, f: Failure) -> Failure {
     let geometric = ["conformal-", "orientation@", "equal-area@", "true-scale@", "maps@", "north-bearing@", "merc-scale", "webmerc-", "libjac-"];
-    if !geometric.iter().any(|g| f.key.starts_with(g)) {
+    if !geometric.iter().any(|g| f.key.starts_with(g)) || LAST_RATIO.with(|r| r.get()) < GROSS {
         return f;
     }
     let groups = present_groups(&case.def);
@@ -725,7 +747,7 @@ fn attribute(case: &Case, f: Failure) -> Failure {
     for g in &groups {
         let dg = reduced(&case.def, std::slice::from_ref(g));
         if let Err(fg) = run_def(&dg, case, &mut scratch, false) {
-            if fg.key == f.key {
+            if fg.key == f.key && LAST_RATIO.with(|r| r.get()) >= GROSS {
                 return Failure {
                     key: format!("{}[{}]", f.key, g),
                     msg: format!("{}\n  attributed to parameter group [{g}]: the reduced definition '{}' fails the same way:\n  {}", f.msg, dg.text(), fg.msg),
@@ -800,7 +822,7 @@ fn run_def(def: &Def, case: &Case, rec: &mut Rec, record: bool) -> CaseResult {
                 rec.metric(&format!("tolerance_used@{op}"), tol);
             }
             vensure!(
-                e1 <= tol,
+                note(e1, tol),
                 format!("conformal-scale@{kop}"),
                 "'{text}' is not conformal at {at}: meridional scale h={:.15} differs from parallel scale k={:.15} by {:.3e} relative (tolerance {:.3e}); Jacobian dx/dlon={:.6} dy/dlon={:.6} dx/dlat={:.6} dy/dlat={:.6} m/rad, M={:.6} N·cos={:.6}",
                 fc.h,
@@ -815,7 +837,7 @@ fn run_def(def: &Def, case: &Case, rec: &mut Rec, record: bool) -> CaseResult {
                 el.n(j.lat) * j.lat.cos()
             );
             vensure!(
-                fc.cos_t.abs() <= tol || !fc.cos_t.is_finite(),
+                !fc.cos_t.is_finite() || note(fc.cos_t.abs(), tol),
                 format!("conformal-angle@{kop}"),
                 "'{text}' at {at}: images of meridian and parallel are not orthogonal, cos(theta')={:.3e} (tolerance {:.3e}); Jacobian dx/dlon={:.6} dy/dlon={:.6} dx/dlat={:.6} dy/dlat={:.6}",
                 fc.cos_t,
@@ -826,7 +848,7 @@ fn run_def(def: &Def, case: &Case, rec: &mut Rec, record: bool) -> CaseResult {
                 j.yp
             );
             vensure!(
-                fc.det > 0.0,
+                note(if fc.det > 0.0 { 0.0 } else { f64::INFINITY }, 1.0),
                 format!("orientation@{kop}"),
                 "'{text}' at {at}: orientation reversed, Jacobian determinant {:.6e} <= 0",
                 fc.det
@@ -839,7 +861,7 @@ fn run_def(def: &Def, case: &Case, rec: &mut Rec, record: bool) -> CaseResult {
                     rec.metric("merc_scale_closed_form_err", e);
                 }
                 vensure!(
-                    e <= tol,
+                    note(e, tol),
                     "merc-scale-closed-form",
                     "'{text}' at {at}: scale factor k={:.15} but a Mercator with k_0={} has k_0·a/(N·cos lat)={:.15} (relative difference {:.3e}, tolerance {:.3e})",
                     fc.k,
@@ -862,7 +884,7 @@ fn run_def(def: &Def, case: &Case, rec: &mut Rec, record: bool) -> CaseResult {
                 rec.metric(&format!("equal_area_err_over_tol@{aspect}"), e / tol);
             }
             vensure!(
-                e <= tol,
+                note(e, tol),
                 format!("equal-area@{aspect}"),
                 "'{text}' does not preserve area at {at}: areal scale h·k·sin(theta') = {:.15e} (expected 1 +- {:.3e}); h={:.12e} k={:.12e}; Jacobian dx/dlon={:.9e} dy/dlon={:.9e} dx/dlat={:.9e} dy/dlat={:.9e} m/rad",
                 fc.s,
@@ -886,7 +908,7 @@ fn run_def(def: &Def, case: &Case, rec: &mut Rec, record: bool) -> CaseResult {
                 rec.metric("webmerc_closed_form_err_over_tol", e / tol);
             }
             vensure!(
-                e <= tol,
+                note(e, tol),
                 "webmerc-closed-form",
                 "'{text}' at {at}: ({:.9}, {:.9}) but the spherical Mercator of radius a={} gives ({:.9}, {:.9}); difference {:.3e} m, tolerance {:.3e} m",
                 j.x,
@@ -960,7 +982,7 @@ fn run_def(def: &Def, case: &Case, rec: &mut Rec, record: bool) -> CaseResult {
                     rec.count(&format!("claim:{op}:{tag}"), 1);
                 }
                 vensure!(
-                    e <= tol,
+                    note(e, tol),
                     format!("true-scale@{kop}:{tag}"),
                     "'{text}' at (lon {:.9}, lat {:.9}) deg: scale factors h={:.12} k={:.12} but the defining scale there is {:.12} ({tag}); relative difference {:.3e}, tolerance {:.3e}",
                     j.lon.to_degrees(),
@@ -983,14 +1005,14 @@ fn run_def(def: &Def, case: &Case, rec: &mut Rec, record: bool) -> CaseResult {
                 let e = vcore::refmath::wrap_pi(got - bearing).abs();
                 // alpha = 90: lambda_0 comes from asin(G·tan(gamma_0)) with an argument of exactly 1, where
                 // asin loses half of the digits (sqrt(2·eps) = 2e-8 rad)
-                let ill = if s.aspect.ends_with("alpha90") { 16.0 * EPS.sqrt() / j.lat.cos().max(1e-3) } else { 0.0 };
+                let ill = if s.aspect.ends_with("alpha90") || s.aspect.ends_with("alpha270") || s.aspect.ends_with("alpha-90") { 16.0 * EPS.sqrt() / j.lat.cos().max(1e-3) } else { 0.0 };
                 let tol = 1e-9 + ill + fc.dh / fc.h;
                 if record {
                     rec.metric(&format!("north_bearing_err_rad@{op}:{tag}"), e);
                     rec.count(&format!("claim:{op}:{tag}"), 1);
                 }
                 vensure!(
-                    e <= tol,
+                    note(e, tol),
                     format!("north-bearing@{kop}:{tag}"),
                     "'{text}' at the centre (lon {:.9}, lat {:.9}) deg: the meridian has grid bearing {:.9} deg, but with azimuth of the initial line alpha and rectified-to-skew angle gamma_c it must be gamma_c - alpha = {:.9} deg (difference {:.3e} rad, tolerance {:.3e})",
                     j.lon.to_degrees(),
@@ -1010,7 +1032,7 @@ fn run_def(def: &Def, case: &Case, rec: &mut Rec, record: bool) -> CaseResult {
                     rec.count(&format!("claim:{op}:{tag}"), 1);
                 }
                 vensure!(
-                    e <= *tol,
+                    note(e, *tol),
                     format!("maps@{kop}:{tag}"),
                     "'{text}': (lon {:.12}, lat {:.12}) deg maps to ({:.9}, {:.9}) but {tag} requires ({:.9}, {:.9}); difference {:.3e} m, tolerance {:.3e} m",
                     lon.to_degrees(),
@@ -1087,7 +1109,7 @@ fn libjac(inst: &Inst, s: &Sem, j: &Jac, rec: &mut Rec, record: bool) -> CaseRes
             rec.metric(&format!("libjac_err_over_tol@{op}"), (lib - mine).abs() / t);
         }
         vensure!(
-            (lib - mine).abs() <= t,
+            note((lib - mine).abs(), t),
             format!("libjac-{name}@{op}"),
             "Jacobian::new(..).factors() for '{text}' at (lon {:.9}, lat {:.9}) deg: {name} = {lib:.12e}, harness finite differences give {mine:.12e} (relative difference {:.3e}, tolerance {:.3e})",
             j.lon.to_degrees(),
@@ -1284,7 +1306,7 @@ fn def_strategy(names: Vec<String>) -> BoxedStrategy<Def> {
             }),
         4 => (ell.clone(), prop_oneof![1 => Just(90.0), 1 => Just(-90.0), 1 => Just(0.0), 4 => millideg(1, 89), 4 => millideg(-89, -1), 1 => (1i32..1000).prop_map(|i| i as f64 / 1000.0), 1 => (1i32..1000).prop_map(|i| 90.0 - i as f64 / 1000.0)], lon(), false_origin())
             .prop_map(|(e, lat_0, lon_0, xy)| put_xy(put_nd(Def::new("laea", e).with("lat_0", lat_0), "lon_0", lon_0, 0.0), xy)),
-        5 => (ell.clone(), omerc_params(), lon(), k0_strategy(), false_origin()).prop_map(|(e, (latc, alpha, gamma, variant), lonc, k, xy)| omerc_def(e, latc, alpha, gamma, variant, lonc, k, xy)),
+        5 => (ell.clone(), omerc_params(false), lon(), k0_strategy(), false_origin()).prop_map(|(e, (latc, alpha, gamma, variant), lonc, k, xy)| omerc_def(e, latc, alpha, gamma, variant, lonc, k, xy)),
         3 => (ell, prop_oneof![1 => Just(0.0), 6 => millideg(-80, 80), 2 => millideg(-89, 89)], lon(), k0_strategy(), false_origin())
             .prop_map(|(e, lat_0, lon_0, k, xy)| put_xy(put_nd(put_nd(put_nd(Def::new("somerc", e), "lat_0", lat_0, 0.0), "lon_0", lon_0, 0.0), "k_0", k, 1.0), xy)),
     ]
@@ -1325,8 +1347,13 @@ fn lcc_parallels() -> impl Strategy<Value = (f64, Option<f64>)> {
 }
 
 /// (latc, alpha, gamma_c, variant): azimuths of every quadrant, 90 exactly, negative ones
-fn omerc_params() -> impl Strategy<Value = (f64, f64, Option<f64>, bool)> {
-    let alpha = prop_oneof![6 => millideg(5, 85), 2 => millideg(-85, -5), 1 => millideg(275, 355), 2 => Just(90.0), 1 => millideg(95, 175), 1 => millideg(185, 265), 1 => Just(-90.0), 1 => Just(270.0)];
+fn omerc_params(registered: bool) -> impl Strategy<Value = (f64, f64, Option<f64>, bool)> {
+    let alpha = if registered {
+        // alpha = -90 exactly: registered finding (ill-conditioned asin at -1)
+        Just(-90.0).boxed()
+    } else {
+        prop_oneof![6 => millideg(5, 85), 2 => millideg(-85, -5), 1 => millideg(275, 355), 2 => Just(90.0), 1 => millideg(95, 175), 1 => millideg(185, 265), 1 => Just(270.0)].boxed()
+    };
     (
         prop_oneof![4 => millideg(1, 80), 4 => millideg(-80, -1), 1 => Just(0.0), 2 => millideg(-89, 89)],
         alpha,
@@ -1344,8 +1371,18 @@ fn omerc_params() -> impl Strategy<Value = (f64, f64, Option<f64>, bool)> {
         })
 }
 
-fn case_strategy(names: Vec<String>, npts: usize, libjac_weight: f64) -> impl Strategy<Value = Case> {
-    (def_strategy(names), prop::collection::vec((unit(), unit()), 1..=npts), prop::bool::weighted(libjac_weight)).prop_map(|(def, uv, libjac)| {
+/// Parameter classes in which findings are registered (kept out of `def_strategy` so that a known
+/// failure cannot mask anything else)
+fn registered_def_strategy(names: Vec<String>) -> BoxedStrategy<Def> {
+    let ell = ell_strategy(names);
+    let lon = prop_oneof![1 => Just(0.0), 5 => millideg(-180, 180)];
+    (ell, omerc_params(true), lon, k0_strategy(), false_origin())
+        .prop_map(|(e, (latc, alpha, gamma, variant), lonc, k, xy)| omerc_def(e, latc, alpha, gamma, variant, lonc, k, xy))
+        .boxed()
+}
+
+fn case_strategy(names: Vec<String>, registered: bool, npts: usize, libjac_weight: f64) -> impl Strategy<Value = Case> {
+    (if registered { registered_def_strategy(names) } else { def_strategy(names) }, prop::collection::vec((unit(), unit()), 1..=npts), prop::bool::weighted(libjac_weight)).prop_map(|(def, uv, libjac)| {
         let pts = uv.iter().map(|(u, v)| domain_point(&def, *u, *v)).collect();
         Case { def, pts, libjac }
     })
@@ -1517,7 +1554,20 @@ fn main() {
             "random",
             "random parameter sets of every projection (centre, standard parallels in both hemispheres, k_0, lat_ts, azimuth of every quadrant incl. 90 exactly and rectified-grid angle, all aspects of laea, false origins) x built-in or random ellipsoid (f in [1e-7, 1/150], a in [1, 7e6]) x up to 12 points of the domain incl. its edges; lines of true scale and origins checked for every case",
             n,
-            move || case_strategy(nm.clone(), 12, 0.15),
+            move || case_strategy(nm.clone(), false, 12, 0.15),
+            check,
+        );
+    }
+
+    // 3. parameter classes of registered findings (kept apart so that they do not mask anything)
+    {
+        let n = run.scale(8_000, 200_000);
+        let nm = names.clone();
+        run.section(
+            "registered-classes",
+            "parameter classes in which findings are registered and not yet repaired: omerc with alpha = -90 exactly; same oracle",
+            n,
+            move || case_strategy(nm.clone(), true, 6, 0.0),
             check,
         );
     }
